@@ -60,11 +60,13 @@ def plan(exe, tier):
         for lo in range(0, count, step):
             jobs.append((typ, "rnd", cap, length, lo, min(count, lo + step), 64, faults))
 
+    # trivially copyable element types with ranges of other element types (fixed set of conversions)
+    jobs.append(("T", "triv", 0, 0, 0, 1, 1, 0))
     if tier == "quick":
         for cap in (0, 1, 2, 3):
             exh("T", cap, 3, 1)
             exh("M", cap, 3, 1)
-        exh("T", 1, 4, 0)
+        rnd("T", 1, 4, 400000, 0)      # depth 4 exhaustively is the thorough tier's business
         exh("M", 2, 4, 1)
         rnd("T", 8, 30, 5000, 1)
         rnd("M", 8, 30, 3000, 1)
